@@ -7,7 +7,7 @@
    Every answer is `{"model": …, "spec": …}`; `spec: null` = the property is silent on this input. -/
 import PsutilModel.Base.Proto
 import PsutilModel.Model.C19Gen
-import PsutilModel.Spec.C19
+import PsutilModel.Spec.C19Cores
 open Lean Psutil Psutil.Proto Psutil.C19
 
 def asFS (j : Json) : R FileState :=
@@ -88,6 +88,23 @@ def asStat (j : Json) : R (FileState × Option Spec.StatRec) :=
     let r ← asStatRec v
     pure (.content (Spec.renderStat r), some r)
   | .error _ => (asFS j).map fun f => (f, none)
+
+/-- topology files: a list of file states, or `{"core_of":[…]}` = the kernel's files for that assignment
+    of logical CPUs to cores, printed in cpulist format by Spec/C19Cores.lean -/
+def asTopology (j : Json) (k : String) : R (List FileState × Option (List Nat)) :=
+  match j.getObjVal? k with
+  | .error _ => .ok ([], none)
+  | .ok v =>
+    match v.getObjVal? "core_of" with
+    | .ok c => do
+      let coreOf ← asList asNat c
+      pure (Spec.kernelTopology Spec.cpuList coreOf, some coreOf)
+    | .error _ => (asList asFS v).map fun l => (l, none)
+
+def jFS : FileState → Json
+  | .absent => Json.null
+  | .unreadable => Json.bool false
+  | .content b => jBytes b
 
 def excName : Exc → String
   | .osError => "OSError"
@@ -185,8 +202,9 @@ def handle (_ : Unit) (j : Json) : R (Unit × Json) := do
     let (ci, blocks) ← field j "cpuinfo" >>= asCpuinfo
     let (st, rec) ← field j "stat" >>= asStat
     let sc ← optF asInt j "sysconf"
-    let t : CountTree := { sysconf := sc, cpuinfo := ci, stat := st
-                           coreCpus := ← listD asFS j "core", siblings := ← listD asFS j "sib" }
+    let (core, coreOf) ← asTopology j "core"
+    let (sib, sibOf) ← asTopology j "sib"
+    let t : CountTree := { sysconf := sc, cpuinfo := ci, stat := st, coreCpus := core, siblings := sib }
     let logical ← boolF j "logical"
     let s : Json :=
       if logical then
@@ -196,15 +214,20 @@ def handle (_ : Unit) (j : Json) : R (Unit × Json) := do
         | none, some bs, none => if bs.length ≠ 0 then okv (jOpt jInt (Spec.countOut bs.length)) else Json.null
         | _, _, _ => Json.null
       else
-        -- cores: topology files when present (distinct contents), else cpuinfo packages
-        let files := if t.coreCpus.isEmpty then t.siblings else t.coreCpus
-        if files.all (fun f => f.readOpt.isSome) then
-          let distinct := (files.map Spec.fileText).eraseDups.length
-          if distinct ≠ 0 then okv (jOpt jInt (Spec.countOut distinct))
-          else match blocks with
-            | some bs => okv (jOpt jInt (Spec.countOut (Spec.coresOf bs)))
+        -- kernel-level statement when the consulted files are the kernel's rendering of an assignment
+        -- of CPUs to cores: the number of distinct cores (C19_cpu_count_cores_kernel)
+        let kernelLevel : Option (List Nat) :=
+          if core.isEmpty then sibOf else coreOf
+        match kernelLevel with
+        | some (c :: cs) => okv (jOpt jInt (Spec.countOut (Spec.distinctCount (c :: cs))))
+        | _ =>
+          -- file-level statement: distinct sibling lists, else the cpuinfo packages (Spec.countCores);
+          -- with a raw cpuinfo the fallback is not specified
+          let bs := blocks.getD []
+          if blocks.isNone ∧ (Spec.topologyFiles t).isEmpty then Json.null
+          else match Spec.countCores t bs with
+            | some v => okv (jOpt jInt v)
             | none => Json.null
-        else Json.null
     return ((), answer (jRes (jOpt jInt) (cpuCount logical t)) s)
   if op == "cpustats" then
     let (st, rec) ← field j "stat" >>= asStat
@@ -226,6 +249,9 @@ def handle (_ : Unit) (j : Json) : R (Unit × Json) := do
     if what == "stat" then
       let (f, _) ← asStat j
       return ((), match f with | .content b => ok (jBytes b) | _ => bad "nothing to render")
+    if what == "topology" then
+      let (fs, _) ← asTopology j "files"
+      return ((), ok (jList jFS fs))
     .error s!"render what={what}"
   .error s!"unknown op {op}"
 
